@@ -17,6 +17,17 @@ elif cmd == 'fixed':
     d['fixed'].append('fixed: property=%s %s %s' % (sys.argv[2], sys.argv[3], sys.argv[4]))
     if len(sys.argv) > 5:
         d['findings'] = [f for f in d['findings'] if not (f['property'] == sys.argv[2] and f['signature'] == sys.argv[5])]
+elif cmd == 'merge':
+    # tools/kf.py merge C17 C18 ... : fold known/<P>.json into known_findings.json and delete the per-property file
+    import os
+    for prop in sys.argv[2:]:
+        fp = 'known/%s.json' % prop
+        if not os.path.exists(fp):
+            continue
+        for f in json.load(open(fp)).get('findings', []):
+            d['findings'] = [g for g in d['findings'] if not (g['property'] == f['property'] and g['signature'] == f['signature'])]
+            d['findings'].append(f)
+        os.unlink(fp)
 elif cmd == 'list':
     for f in d['findings']:
         print(f['property'], '|', f['signature'][:110].replace('\n', ' '), '|', f['what'][:80])
